@@ -67,3 +67,70 @@ def abort_all() -> None:
         trace = _open.pop(kind)
         trace["finished"] = False
         _flush(trace)
+
+
+# -- abstract snapshots of a model (used by the rewriter hooks) ---------------------------------
+_tokens: dict[int, str] = {}
+_keepalive: list[Any] = []
+
+
+def tok(obj: Any, prefix: str) -> str:
+    """A token that identifies an object for the lifetime of the process ("" for None)."""
+    if obj is None:
+        return ""
+    key = id(obj)
+    t = _tokens.get(key)
+    if t is None:
+        t = f"{prefix}{len(_tokens)}"
+        _tokens[key] = t
+        _keepalive.append(obj)  # ids must not be reused while tokens are in use
+    return t
+
+
+def snapshot_graph(graph: Any, kind: str, out: list[dict[str, Any]]) -> str:
+    """Append the abstract form of a graph (and, recursively, of its subgraphs) to `out`."""
+    gid = tok(graph, "g")
+    nodes = []
+    for node in graph:
+        subs = []
+        for attr in node.attributes.values():
+            value = getattr(attr, "value", None)
+            type_name = getattr(getattr(attr, "type", None), "name", "")
+            if type_name == "GRAPH" and value is not None:
+                subs.append(snapshot_graph(value, "sub", out))
+            elif type_name == "GRAPHS" and value is not None:
+                subs.extend(snapshot_graph(g, "sub", out) for g in value)
+        nodes.append(
+            {
+                "id": tok(node, "n"),
+                "op": node.op_type,
+                "domain": node.domain,
+                "ins": [tok(v, "v") for v in node.inputs],
+                "outs": [tok(v, "v") for v in node.outputs],
+                "subs": subs,
+            }
+        )
+    initializers = getattr(graph, "initializers", None)
+    out.append(
+        {
+            "id": gid,
+            "kind": kind,
+            "inputs": [tok(v, "v") for v in graph.inputs],
+            "outputs": [tok(v, "v") for v in graph.outputs],
+            "inits": [tok(v, "v") for v in initializers.values()] if initializers is not None else [],
+            "nodes": nodes,
+        }
+    )
+    return gid
+
+
+def snapshot_model(model: Any) -> dict[str, Any]:
+    graphs: list[dict[str, Any]] = []
+    main = snapshot_graph(model.graph, "main", graphs)
+    functions = [snapshot_graph(f, "function", graphs) for f in model.functions.values()]
+    return {
+        "main": main,
+        "functions": functions,
+        "graphs": graphs,
+        "opsets": sorted([d, v] for d, v in model.opset_imports.items()),
+    }
